@@ -340,6 +340,14 @@ class Rd(ReadBase):
             yield Case(f'rd:{name}:{i}', ['load ' + mp, f'run blk={blk} src={src} cons={cons} trunc=- fault=-'], {'file': mp})
         # header sweep: one small representative per format family, single damaged bytes in the fixed
         # header (length, count and size fields live there) combined with a cut just behind it
+        def only_of(path):
+            n_ = os.path.basename(path)
+            for pat, f in (('lzh', 'lha'), ('.cab', 'cab'), ('rar5', 'rar5'), ('.rar', 'rar'), ('.zip', 'zip'), ('.7z', '7zip'),
+                           ('cpio', 'cpio'), ('.tar', 'tar'), ('.ar', 'ar'), ('.iso', 'iso9660'), ('.xar', 'xar'),
+                           ('mtree', 'mtree'), ('warc', 'warc')):
+                if pat in n_ and not re.search(r'\.(gz|bz2|Z|xz|lz|lzma|zst|lz4|uu|tgz|tbz|lzo|grz|lrz)$', n_):
+                    return f
+            return '-'
         small = sorted(p_ for n_, p_ in pool if os.path.getsize(p_) <= 6000)
         rng.shuffle(small)
         for p_ in small[:(30 if tier == 'quick' else len(small))]:
@@ -348,7 +356,9 @@ class Rd(ReadBase):
             # every byte of the fixed header set to 255, small blocks so that the library's own
             # (exact-size) copy buffer is what an over-long length field runs out of
             for off in range(0, min(size, 40 if tier == 'quick' else 96)):
-                ops.append(f'run blk=7 src=cb cons=A trunc=- fault=- poke={off}:255')
+                ops.append(f'run blk=7 src=cb cons=A trunc=- fault=- poke={off}:255 only={only_of(p_)}')
+            for off in range(0, min(size, 32 if tier == 'quick' else 96)):     # large but below typical sanity caps
+                ops.append(f'run blk=7 src=cb cons=A trunc=- fault=- poke={off}:200 only={only_of(p_)}')
             for _ in range(12 if tier == 'quick' else 300):
                 off = rng.randrange(0, min(size, 120))
                 val = rng.choice([255, 200, 127, 128, 0, 1, 64])
